@@ -629,31 +629,36 @@ func checkPackageLinks(root string) error {
 	})
 }
 
-// hashPackageDir is dirhash.HashDir with one difference: a symlink to a
-// directory, which is a valid member of a package but cannot be read as a
-// file, contributes its target text instead of making the hash fail. It is
-// entered under its name with a slash appended, which no file can be called,
-// so that a regular file holding the same text hashes differently.
+// hashPackageDir is dirhash.HashDir with one difference: a symlink contributes
+// the text of its target instead of the bytes behind it, which for a link to
+// a directory cannot be read at all and for a link to a file would make the
+// link indistinguishable from a copy of that file. A link is entered under
+// its name with a slash appended, which no file can be called, so that a
+// regular file holding the same text hashes differently.
 func hashPackageDir(dir string) (string, error) {
 	files, err := dirhash.DirFiles(dir, "")
 	if err != nil {
 		return "", err
 	}
-	dirLinks := make(map[string]string)
+	links := make(map[string]string)
 	for i, name := range files {
 		path := filepath.Join(dir, name)
-		if info, err := os.Stat(path); err == nil && info.IsDir() {
+		if info, err := os.Lstat(path); err == nil && info.Mode()&os.ModeSymlink != 0 {
 			target, err := os.Readlink(path)
 			if err != nil {
 				return "", err
 			}
 			files[i] = name + "/"
-			dirLinks[files[i]] = target
+			if info, err := os.Stat(path); err == nil && info.IsDir() {
+				links[files[i]] = "symlink to directory " + target
+			} else {
+				links[files[i]] = "symlink to " + target
+			}
 		}
 	}
 	return dirhash.Hash1(files, func(name string) (io.ReadCloser, error) {
-		if target, ok := dirLinks[name]; ok {
-			return io.NopCloser(strings.NewReader("symlink to directory " + target)), nil
+		if text, ok := links[name]; ok {
+			return io.NopCloser(strings.NewReader(text)), nil
 		}
 		return os.Open(filepath.Join(dir, name))
 	})
